@@ -566,8 +566,10 @@ static void section_prime(const Args &A) {
 			if (!why.empty()) propfail("prime-sprime3mod4", "sprime3mod4(psize=" + hx(ps) + ") gave p=" + hx(p) + ": " + why);
 		}
 	// Schnorr-type primes p = kq + 1
-	static const unsigned long LP[][2] = { {32, 16}, {64, 24}, {128, 40}, {256, 160}, {512, 160}, {1024, 160}, {30, 16}, {60, 47} };
-	// (gaps psize-qsize of a few bits are avoided: q is drawn once, so the search over k need not terminate)
+	static const unsigned long LP[][2] = { {48, 16}, {64, 24}, {128, 40}, {256, 160}, {512, 160}, {1024, 160}, {56, 16}, {96, 47} };
+	// gaps psize-qsize below ~30 bits are avoided: q is drawn once and p = kq+1 must reach psize bits, so for q close to
+	// 2^(qsize-1) only a fraction 2d/(1+d) (q = 2^(qsize-1)(1+d)) of the k range qualifies; with a short k the search over k
+	// need not terminate (observed: lprime(30,16) spinning for > 10 min with VERIF_SEED=2)
 	for (unsigned r = 0; r < R; r++)
 		for (auto &l : LP) {
 			if (!A.thorough() && l[0] > 512) continue;
